@@ -40,6 +40,51 @@ def run(ctx):
     rule_d(ctx)
     rule_e(ctx)
     rule_f(ctx)
+    rule_g(ctx)
+
+
+def rule_g(ctx):
+    """g. the rebase order considers every replacement target of a rewritten parent (all Rewrite variants, through
+          Rewrite::new_parent_ids), like new_parents() which later resolves them
+       h. when concurrent operations are merged, every removed commit of a change is recorded: commits sharing a change
+          id (divergent) are accumulated, never overwritten in a map keyed by change id
+       (both added after agent-seeded changes were missed)"""
+    F = ctx.F
+    root = MR + "order_commits_for_rebase"
+    fam = F.family_bodies(root)
+    if ctx.anchor("C11.g", root, fam, 2):
+        ctx.fn_seen(*[b.id for b in fam])
+        uses = [c for b in fam for c in b.calls if not c.cleanup and (c.res or "") == "jj_lib::repo::Rewrite::new_parent_ids"]
+        narrowed = []
+        for b in fam:
+            for bb, t in b.switches():
+                ds = b.discr_source(bb)
+                if ds and ds[1] == "jj_lib::repo::Rewrite":
+                    narrowed.append(b.id)
+        ok = bool(uses) and not narrowed
+        ctx.ob("C11.g/order-follows-all-replacement-targets", root, ok,
+               "dependencies on replacement targets come from Rewrite::new_parent_ids() (Rewritten, Divergent and Abandoned)"
+               if ok else "the rebase order only follows some Rewrite variants: children of an abandoned/divergent commit can "
+                          "be rebased onto a replacement that is itself still to be rebased (stale commit stays visible)")
+    root = MR + "record_rewrites"
+    fam = F.family_bodies(root)
+    if ctx.anchor("C11.h", root, fam, 1):
+        ctx.fn_seen(*[b.id for b in fam])
+        bad = []
+        acc = 0
+        for b in fam:
+            for c in b.calls:
+                if c.cleanup:
+                    continue
+                n = c.res or c.decl or ""
+                if name_matches(n, "re:collections::HashMap::<.*>::insert$") and "ChangeId" in c.generics.split(",")[0]:
+                    bad.append(c)
+                if name_matches(n, "re:hash_map::Entry::<.*>::or_default$|or_insert_with$"):
+                    acc += 1
+        ctx.ob("C11.h/removed-commits-accumulated-per-change", root, not bad and acc >= 2,
+               f"{acc} accumulate-per-key sites; no HashMap<ChangeId, _>::insert" if not bad and acc >= 2 else
+               "removed commits are stored in a map keyed by change id with insert(): of several commits sharing a change "
+               "id only one is recorded as rewritten/abandoned", where=bad[0].where() if bad else None)
 
 
 def rule_a(ctx, prefix="C11.a"):
